@@ -234,9 +234,11 @@ def check_wiring(prog: Program, res: Result) -> None:
                            f"{cls} for {mtype} is wired with {kw}", f"{ld.module.relpath}:{st.lineno}")
     res.ob(R, n == 8, ld.qualname, "train+val streaming dataset for each of the 4 model types", f"{n} streaming dataset constructions", ld.where)
     # subprocess arguments
-    sp = prog.functions.get(ld.qualname + ".<locals>.run_subprocess")
+    # (the Popen argument list, wherever in this method - nested helper included - it is written)
+    holders = [f_ for q_, f_ in prog.functions.items() if q_ == ld.qualname or q_.startswith(ld.qualname + ".<locals>.")]
+    sp = next((f_ for f_ in holders if any(isinstance(c_, ast.Call) and norm(c_.func).endswith("Popen") for c_ in walk_function(f_.node))), None)
     if sp is None:
-        raise AnalysisError("run_subprocess vanished")
+        raise AnalysisError("the subprocess.Popen call that starts the chunk generator vanished")
     lst = [n_ for n_ in walk_function(sp.node) if isinstance(n_, ast.List) and len(n_.elts) > 10]
     argv = [norm(e).strip("f'\"") for e in lst[0].elts] if lst else []
     pairs = {argv[i]: argv[i + 1] for i in range(3, len(argv) - 1, 2)} if argv else {}
@@ -466,7 +468,12 @@ def check_crop_size(prog: Program, res: Result) -> None:
         e = astq.expand(init.node, e, keep=["crop_hw"])
         adds = [b for b in ast.walk(e) if isinstance(b, ast.BinOp) and isinstance(b.op, (ast.Add, ast.Sub))]
         calls = [norm(c.func) for c in ast.walk(e) if isinstance(c, ast.Call) and norm(c.func) not in ("int", "round", "list", "tuple")]
-        scaled = "input_scale" in norm(e) and "crop_hw" in norm(e)
+        derived = {"crop_hw"}
+        for _ in range(3):
+            for st_ in walk_function(init.node):
+                if isinstance(st_, ast.Assign) and (astq.names_in(st_.value) & derived or "crop_hw" in norm(st_.value)):
+                    derived |= {t_ for tg_ in st_.targets for t_ in astq.target_names(tg_)}
+        scaled = "input_scale" in norm(e) and ("crop_hw" in norm(e) or bool(astq.names_in(e) & derived))
         res.ob(R, scaled and not adds and not calls, init.qualname, "re-crop size = crop_hw * input_scale (element-wise)",
                f"the streaming re-crop size is `{short(e, 80)}`" + (f" (additive term `{short(adds[0], 30)}`)" if adds else (f" (through {calls})" if calls else "")) +
                ": not the configured crop size scaled by input_scale, so the streaming crop covers another region than the in-memory / .npz crop", f"{init.module.relpath}:{last.lineno}")
